@@ -170,7 +170,12 @@ class DataReadout(MeterMessageBase):
     @property
     def is_valid(self) -> bool:
         """Return True when valitation (checksum etc.) is successfull."""
-        expected_checksum = self.expected_checksum
+        try:
+            expected_checksum = self.expected_checksum
+        except ValueError:
+            # end line is not ASCII, or the text after "!" is not a hexadecimal number
+            _LOGGER.debug("Invalid end line")
+            return False
         if expected_checksum is not None:
             if self._calculated_crc != expected_checksum:
                 _LOGGER.debug(
@@ -290,7 +295,7 @@ class ModeDReader(MeterReaderBase[DataReadout]):
                 return readouts_received
 
             if self.is_in_hunt_mode:
-                if line[0] == START_CHARACTER_HEX:
+                if line[0] == START_CHARACTER_HEX and line.isascii():
                     line_str = line.decode("ascii")
                     if Ident.is_ident_line(line_str):
                         _LOGGER.debug("Ident line found: %s", line_str)
